@@ -190,3 +190,23 @@ package certs
 //@   ensures err == nil ==> srange(ref(r), rChunkEnd, 64) == bytes(c.Signature)
 //@   ensures err == nil ==> n == 148 + resultof(certs.IDChunk.ReadFrom, n)
 //@   ensures err == nil ==> spos == update(old(spos), ref(r), old(spos)[ref(r)] + int(n))
+
+// ===========================================================================
+// C04: issuance - what the issuing function hands out is linked to its parent and does not outlive it
+// ===========================================================================
+//@ axiom C04.before_irreflexive: forall w uint64, e int64 :: !tbefore(w, e, w, e)
+//@ func ed25519.NewKeyFromSeed(seed []byte) (k ed25519.PrivateKey)
+//@   assume standard library: derives the private key; changes nothing
+//@   pure
+//@ func (priv ed25519.PrivateKey) Sign(rand io.Reader, message []byte, opts crypto.SignerOpts) (sig []byte, err error)
+//@   assume standard library: signs; changes nothing but the random source
+//@   modifies opaque(rand)
+// The issued certificate carries the requested type, the subject's key, the parent's fingerprint as its issuer link, is
+// issued at the requested instant - at which the parent is valid - and expires no later than the parent.
+//@ func issue(parent *Certificate, child *Identity, certType CertificateType, issuedAt time.Time, duration time.Duration) (out *Certificate, err error)
+//@   property C04
+//@   assume only the clauses below are proved against the body; the signing tail (that the buffer the certificate was written into holds exactly the bytes counted, Ed25519 signing, the fingerprint hash) is not modelled, so its slice bounds and its two defensive panics are not claimed
+//@   requires parent != nil && child != nil
+//@   proves err == nil ==> out != nil && out.Type == certType && out.Parent == parent.Fingerprint && out.PublicKey == child.PublicKey && out.Version == certs.Version
+//@   proves err == nil ==> same(out.IssuedAt, issuedAt) && valid(parent, issuedAt)
+//@   proves err == nil ==> !before(parent.ExpiresAt, out.ExpiresAt)
